@@ -149,6 +149,10 @@ def rand_value(rng):
     return {"k": k}
 
 
+# any element can be a block: inline, block, custom, void and raw-text names alike
+BLOCK_TAGS = ["div", "span", "ul", "x-t", "div", "span", "p", "br", "hr", "img", "input", "meta", "link", "source", "script", "style", "svg", "head", "body"]
+
+
 def rand_stmts(rng, depth, budget):
     out = []
     n = rng.randint(0, 4)
@@ -159,8 +163,17 @@ def rand_stmts(rng, depth, budget):
         r = rng.random()
         if r < 0.5:
             out.append({"s": "display", "v": rand_value(rng)})
+            if rng.random() < 0.2 and out[-1]["v"]["k"] in ("dep", "meta", "text", "tag", "html", "obj", "tf", "num"):
+                # the same value again: an equal one, or the very same object (normal child rules keep both)
+                import copy as _c
+                again = _c.deepcopy(out[-1]["v"])
+                if rng.random() < 0.5:
+                    key = "again%d" % rng.randrange(10**9)
+                    out[-1]["v"]["share"] = key
+                    again["share"] = key
+                out.append({"s": "display", "v": again})
         elif r < 0.72 and depth > 0:
-            out.append({"s": "block", "tag": rng.choice(["div", "span", "ul", "x-t"]), "body": rand_stmts(rng, depth - 1, budget)})
+            out.append({"s": "block", "tag": rng.choice(BLOCK_TAGS), "body": rand_stmts(rng, depth - 1, budget)})
         elif r < 0.8:
             out.append({"s": "raise"})
         elif r < 0.84:
@@ -183,7 +196,7 @@ def rand_program(rng, max_stmts=10):
     prog = []
     for _ in range(rng.randint(1, 3)):
         budget[0] -= 1
-        prog.append({"s": "block", "tag": rng.choice(["div", "section"]), "body": rand_stmts(rng, rng.choice([1, 2, 3]), budget)})
+        prog.append({"s": "block", "tag": rng.choice(["div", "section", "div", "section", "br", "img", "area", "base", "col", "embed", "param", "track", "wbr", "command", "keygen"]), "body": rand_stmts(rng, rng.choice([1, 2, 3]), budget)})
         if rng.random() < 0.3:
             prog.append({"s": "display", "v": rand_value(rng)})
     return prog
@@ -304,6 +317,11 @@ class Run:
             if raised_inside[0]:
                 # control only gets here if __exit__ reported the exception as handled
                 self.problems.append(("exception-swallowed-by-block", "an exception raised inside a with-block did not propagate out of it"))
+        except BaseException as e:
+            if not entered:
+                # a fresh tag (never entered before) of any name can open a block
+                self.problems.append(("block-entry-refused", "entering a fresh <%s> tag raised %r" % (st["tag"], e)))
+            raise
         finally:
             if entered and sys.displayhook is not hook_at_entry:
                 self.problems.append(("hook-not-restored", "after the with-block sys.displayhook is not the hook installed when it was entered"))
@@ -396,6 +414,7 @@ def run_case(ctx, prog, inject_at, recorder_raise_on=None):
     mon = Monitor(ctx)
     real = sys.displayhook
     rec = Recorder(recorder_raise_on, returns_value=(inject_at or 0) % 2 == 1 or recorder_raise_on is None and bool(inject_at is not None and inject_at % 3 == 0))
+    gen.reset_shared()
     run = Run(ctx, inject_at, rec)
     mon.install()
     sys.displayhook = rec
